@@ -15,19 +15,24 @@ import gen as G
 import harness as H
 
 
+def _F(x):
+    """exact value of a Fraction / int / float / exact wrapper (object with attribute v)"""
+    return x.v if hasattr(x, "v") else F(x)
+
+
 # ---- stand-ins (must equal lib/PreludeQ.v: nsqrt, nexp, nrpow, ufun, udist, ufam)
 def u_sqrt(x):
-    x = F(x)
+    x = _F(x)
     return 3 * x + 1
 
 
 def u_exp(x):
-    x = F(x)
+    x = _F(x)
     return 2 * x - 5
 
 
 def ufun(c0, c1, c2, c3, p1, p2, x):
-    x, p1, p2 = F(x), F(p1), F(p2)
+    x, p1, p2 = _F(x), _F(p1), _F(p2)
     return c0 + c1 * x + c2 * p1 + c3 * p2
 
 
